@@ -172,8 +172,16 @@ func (t *timestampOracle) loadTimestamp() (time.Time, error) {
 func (t *timestampOracle) saveTimestamp(leadership *election.Leadership, ts time.Time) error {
 	key := t.getTimestampPath()
 	data := typeutil.Uint64ToBytes(uint64(ts.UnixNano()))
+	// The saved time window must be monotonically increasing: the checks and saves of the periodic
+	// update, the user reset and the synchronization are not serialized with each other (and a save
+	// may have been applied although its reply was lost), so a bigger window may be there already.
+	// Only put the new window if the stored one is not bigger. The values are big-endian encoded,
+	// so the byte order of etcd is the numeric order.
 	resp, err := leadership.LeaderTxn().
-		Then(clientv3.OpPut(key, string(data))).
+		Then(clientv3.OpTxn(
+			[]clientv3.Cmp{clientv3.Compare(clientv3.Value(key), ">", string(data))},
+			nil,
+			[]clientv3.Op{clientv3.OpPut(key, string(data))})).
 		Commit()
 	if err != nil {
 		return errs.ErrEtcdKVPut.Wrap(err).GenWithStackByCause()
